@@ -1437,8 +1437,32 @@ class PX:
         return Sym(f"comp@{e.lineno}")
 
     def e_GeneratorExp(self, e, fr):
-        v = self.e_ListComp(e, fr)
-        return _Gen(v) if isinstance(v, list) else v
+        """Lazy, as in Python: the first iterable is evaluated now, everything else when the generator is advanced."""
+        gens = e.generators
+        first = self.ev(gens[0].iter, fr)
+        if isinstance(first, Sym):
+            return Sym(f"comp@{e.lineno}")
+
+        def lazy(it, f, node):
+            if isinstance(it, Iter):
+                return it.it
+            if isinstance(it, Sym):
+                raise Unsupported(f"{fr.mod}:{e.lineno} generator expression over {it!r}")
+            return iter(self._concrete_iter(it, f, node))
+
+        def rec(i, f):
+            if i == len(gens):
+                yield self.ev(e.elt, f)
+                return
+            g = gens[i]
+            it = first if i == 0 else self.ev(g.iter, f)
+            for x in lazy(it, f, e):
+                f2 = Frame(f.func, {}, f.self_obj, f, f.mod, f.depth)
+                self.assign(g.target, x, f2)
+                if all(self.truth(self.ev(c, f2), f2, c) for c in g.ifs):
+                    yield from rec(i + 1, f2)
+
+        return Iter(rec(0, fr), "genexpr")
 
     def e_SetComp(self, e, fr):
         out = []
@@ -1848,6 +1872,12 @@ class PX:
         args = [list(a) if isinstance(a, (Iter, _Gen)) else (a.materialise() if isinstance(a, _DictItems) else a) for a in args]
         if name == "join" and isinstance(obj, (str, bytes, bytearray)) and args and isinstance(args[0], (list, tuple)):
             if any(isinstance(x, (Sym, Obj)) for x in args[0]):
+                if len(obj) == 0 and args[0]:
+                    # empty separator: the join is the concatenation of its parts
+                    acc = args[0][0]
+                    for x in args[0][1:]:
+                        acc = self.binop(ast.Add(), acc, x, node)
+                    return acc
                 return Sym(f"{text}#{self._count('call:' + text)}")
             conv = [bytes(x) if isinstance(x, bytearray) and isinstance(obj, bytes) else x for x in args[0]]
             try:
